@@ -837,6 +837,13 @@ example : ((goPlan E0 "lastIndexOf").run ⟨.prim (.str []), [.prim (.str [0x78]
 example : (goPlan E0 "slice").run ⟨.prim (.str sABC), [oN 1, oN 2]⟩ = ([1, 2], .str [0x62]) ∧
     (goPlan E0 "slice").run ⟨.prim (.str sABC), [.obj [.throw], oN 2]⟩ = ([1], .throwScript) := by decide
 
+-- primitive_this_boxed: String.prototype.toString = function(){return "zzz"}; "abc".charAt(0)
+example : (memberThisOverridden E0 sZZZ (.val (.str sABC))).map (fun rm => charAt E0 rm [num 0]) = some (.str [122]) ∧
+    Spec.charAt E0 (Spec.thisOverridden sZZZ (.val (.str sABC))) [num 0] = .str [0x61] := by decide
+-- … a String object receiver is converted through the replaced toString on both sides
+example : (memberThisOverridden E0 sZZZ (.strObj sABC)).map (fun rm => charAt E0 rm [num 0]) = some (.str [122]) ∧
+    Spec.charAt E0 (Spec.thisOverridden sZZZ (.strObj sABC)) [num 0] = .str [122] := by decide
+
 /-! ## Non-vacuity of the side conditions -/
 example : NoLone (.strObj sAXB) ∧ NoLone (.val16 [0xD835, 0xDCB3]) ∧ SmallInt (num 2) ∧ SmallInt (.int .i64 7) ∧ ¬ NoLone (.val16 [0xD800]) := by
   refine ⟨trivial, by show U (bytesOfUnits [0xD835, 0xDCB3]) = [0xD835, 0xDCB3]; decide, trivial,
